@@ -430,6 +430,10 @@ def proj_fields(pl):
 
 class Facts:
     def __init__(self, data):
+        if data.get("config") == "alloc" and not data.get("_std_paths"):
+            # no_std build: the same library items print as alloc::/core:: paths; rules name them by their std:: path
+            data = json.loads(re.sub(r'(?<![\w:])(?:alloc|core)::', 'std::', json.dumps(data)))
+            data["_std_paths"] = True
         self.data = data
         self.config = data["config"]
         self.fns = data["fns"]
